@@ -1,6 +1,9 @@
 (* C02  Version components and normal forms are faithful and canonical.
    Model: VParse.parse_spelling (scanner mirroring Version._regex), VMeaning.meaning (Version.__init__), VMeaning.vstr (__str__),
-   SpecModel.public_str/base_str, Canon.canon (canonicalize_version with _TrimmedRelease).  Statements only. *)
+   SpecModel.public_str/base_str, Canon.canon (canonicalize_version with _TrimmedRelease).  Statements only.
+   The model has no digit limit (finding D10): the real Version() rejects a decimal component of more than 4300 digits with InvalidVersion and
+   canonicalize_version passes such a string through, so the theorems below (in particular C02_leading_zeros_irrelevant for long zero runs) speak
+   about the real code only up to that length. *)
 From Coq Require Import List Arith NArith Bool Lia.
 Import ListNotations.
 Require Import S1 VParse VComplete VTop VTop2 VDec Py VMeaning VCanon VCanon2 VCanon3 VCmp SpecModel SpecOps Order Canon VWf VKeyEq CanonLaws VInt VGnfParsed VObsModel VReading VNumDefined.
